@@ -255,10 +255,10 @@ Qed.
 (* a zombie: name() is the kernel name (also at 15 bytes, where cmdline() is consulted and
    raises ZombieProcess), cmdline()/exe()/cwd() raise ZombieProcess *)
 Lemma zombie_block : forall c comm esrch,
-  run_ops c None (zombie_ops (view_zombie comm esrch)) = spec_zombie comm.
+  run_ops c st0 (zombie_ops (view_zombie comm esrch)) = spec_zombie comm.
 Proof.
-  intros c comm esrch. unfold zombie_ops, spec_zombie. cbn [run_ops do_op].
-  rewrite name_zombie by reflexivity.
+  intros c comm esrch. unfold zombie_ops, spec_zombie. cbn [run_ops do_op fe_name_st].
+  rewrite name_zombie by reflexivity. cbn [remember_name s_exe s_name st0].
   assert (Hc : pl_cmdline c (view_zombie comm esrch) = Exc ZombieProcess).
   { unfold pl_cmdline. cbn. destruct (nl_translate c); reflexivity. }
   rewrite Hc.
@@ -268,16 +268,16 @@ Proof.
 Qed.
 
 Lemma gone_block : forall c denied esrch,
-  run_ops c None (gone_ops denied esrch) = spec_gone denied.
+  run_ops c st0 (gone_ops denied esrch) = spec_gone denied.
 Proof. intros c [|] [|]; reflexivity. Qed.
 
 (* one block of calls over an unchanged kernel state *)
 Lemma history : forall c r,
   wf_proc r = true -> (nl_translate c = true -> cmd_no_cr (p_cmd r) = true) ->
   (name_chars c = true -> is_ascii (p_comm r) = true) ->
-  run_ops c None (hist_ops (view_proc r)) = spec_hist r.
+  run_ops c st0 (hist_ops (view_proc r)) = spec_hist r.
 Proof.
-  intros c r Hwf Hcr Hasc. unfold hist_ops, spec_hist. cbn [run_ops do_op].
+  intros c r Hwf Hcr Hasc. unfold hist_ops, spec_hist. cbn [run_ops do_op fe_name_st s_exe s_name st0].
   rewrite name_spec by assumption. rewrite exe_spec by assumption.
   pose proof Hwf as Hwf'. unfold wf_proc in Hwf'.
   apply andb_true_iff in Hwf' as [Hwf' _]. apply andb_true_iff in Hwf' as [Hcmd _].
@@ -285,8 +285,88 @@ Proof.
 Qed.
 
 Lemma history_now : forall r,
-  wf_proc r = true -> run_ops now None (hist_ops (view_proc r)) = spec_hist r.
+  wf_proc r = true -> run_ops now st0 (hist_ops (view_proc r)) = spec_hist r.
 Proof. intros r H. apply history; auto; intros H0; discriminate H0. Qed.
+
+(* ---------------------------------------------------------------- name(): history independence *)
+(* a call of the name family answers from the kernel view of that moment, whatever the
+   object remembers *)
+Lemma do_op_name_family c st v o :
+  name_family o = true -> fst (do_op c st v o) = fst (do_op c st0 v o).
+Proof. destruct o; try discriminate; intros _; reflexivity. Qed.
+
+Lemma name_history_independent : forall c steps st,
+  forallb (fun s => name_family (snd s)) steps = true ->
+  run_ops c st steps = map (fun s => fst (do_op c st0 (fst s) (snd s))) steps.
+Proof.
+  intros c steps. induction steps as [|[v o] r IH]; intros st H; [reflexivity|].
+  cbn [forallb snd] in H. apply andb_true_iff in H as [Ho Hr].
+  cbn [run_ops map fst snd]. destruct (do_op c st v o) as [x st'] eqn:E.
+  rewrite (IH st' Hr). f_equal.
+  rewrite <- (do_op_name_family c st v o Ho), E. reflexivity.
+Qed.
+
+(* in particular two histories that end in the same OS state give the same last answer *)
+Lemma name_last_answer : forall c pre1 pre2 st1 st2 v o,
+  name_family o = true ->
+  forallb (fun s => name_family (snd s)) pre1 = true ->
+  forallb (fun s => name_family (snd s)) pre2 = true ->
+  last (run_ops c st1 (pre1 ++ [(v, o)])) RUnit = last (run_ops c st2 (pre2 ++ [(v, o)])) RUnit.
+Proof.
+  intros c pre1 pre2 st1 st2 v o Ho H1 H2.
+  rewrite !name_history_independent by (rewrite forallb_app; cbn [forallb snd]; rewrite ?H1, ?H2, Ho; reflexivity).
+  rewrite !map_app. cbn [map]. now rewrite !last_last.
+Qed.
+
+Lemma name_state_answer c s :
+  wf_nstate s = true -> (nl_translate c = true -> cmd_no_cr (n_cmd s) = true) ->
+  (name_chars c = true -> is_ascii (n_comm s) = true) ->
+  fe_name c (view_nstate s) = Val (spec_name_now s).
+Proof.
+  intros Hwf Hcr Hasc. unfold wf_nstate in Hwf. apply andb_true_iff in Hwf as [Hlen Hz].
+  unfold view_nstate, spec_name_now. destruct (n_zombie s).
+  - now rewrite name_zombie.
+  - cbn [orb] in Hz. apply name_spec; [|exact Hcr|exact Hasc].
+    unfold wf_proc, nproc. cbn [p_cmd p_exe p_comm]. now rewrite Hz, Hlen.
+Qed.
+
+(* every history of OS states (argv[0] rewritten, title overwritten, turned zombie, emptied,
+   back again ...) with a name()/repr()/as_dict() call in each: each answer is the one the
+   state of that moment demands *)
+Lemma name_steps_spec : forall h,
+  forallb (fun so => wf_nstate (fst so) && name_family (snd so)) h = true ->
+  map (fun s => fst (do_op now st0 (fst s) (snd s))) (map (fun so => (view_nstate (fst so), snd so)) h)
+  = map spec_name_step h.
+Proof.
+  induction h as [|[s o] r IH]; intros H; [reflexivity|].
+  cbn [forallb fst snd] in H. apply andb_true_iff in H as [Hs Hr]. apply andb_true_iff in Hs as [Hwf Ho].
+  cbn [map fst snd]. rewrite (IH Hr). f_equal.
+  assert (Hn : fe_name now (view_nstate s) = Val (spec_name_now s))
+    by (apply name_state_answer; [exact Hwf| |]; intros H0; discriminate H0).
+  destruct o; try discriminate; unfold spec_name_step; cbn [do_op fe_name_st fst snd as_dict_value];
+    rewrite ?Hn; reflexivity.
+Qed.
+
+Lemma name_history_spec : forall h st,
+  forallb (fun so => wf_nstate (fst so) && name_family (snd so)) h = true ->
+  run_ops now st (map (fun so => (view_nstate (fst so), snd so)) h) = map spec_name_step h.
+Proof.
+  intros h st H. rewrite name_history_independent; [now apply name_steps_spec|].
+  clear st. induction h as [|[s o] r IH]; [reflexivity|].
+  cbn [forallb fst snd map] in *. apply andb_true_iff in H as [Hs Hr]. apply andb_true_iff in Hs as [_ Ho].
+  now rewrite Ho, IH.
+Qed.
+
+Example name_history_example :
+  let comm := bs "gnome-keyring-d" in
+  let h := [ ({| n_comm := comm; n_cmd := KArgv [bs "/usr/bin/gnome-keyring-daemon"]; n_zombie := false |}, OpName);
+             ({| n_comm := comm; n_cmd := KArgv [bs "/usr/bin/gnome-keyring-d-other"; bs "x"]; n_zombie := false |}, OpRepr);
+             ({| n_comm := comm; n_cmd := KTitle [bs "title:"; bs "idle"] TNone; n_zombie := false |}, OpName);
+             ({| n_comm := comm; n_cmd := KArgv []; n_zombie := true |}, OpAsDictName);
+             ({| n_comm := comm; n_cmd := KArgv []; n_zombie := false |}, OpName) ] in
+  forallb (fun so => wf_nstate (fst so) && name_family (snd so)) h = true
+  /\ map spec_name_step h = [RBytes (Val (bs "gnome-keyring-daemon")); RUnit; RBytes (Val comm); ROpt (Val (Some comm)); RBytes (Val comm)].
+Proof. cbv zeta. split; reflexivity. Qed.
 
 Lemma name_multibyte_refuted :
   exists r, wf_proc r = true /\ cmd_no_cr (p_cmd r) = true /\ length (p_comm r) = 15%nat /\
